@@ -113,6 +113,7 @@ type GuardClause struct {
 }
 
 type SpecFile struct {
+	Alt    map[string][]*FuncSpec // further contracts for the same function name (each restricted by flag only_for)
 	Lemmas map[string]*Lemma
 	Funcs  map[string]*FuncSpec
 	Pures  map[string]*PureFunc
@@ -226,11 +227,17 @@ func (sf *SpecFile) ParseSpecFile(path string) error {
 				}
 				name = strings.TrimSpace(name[:i])
 			}
-			if _, dup := sf.Funcs[name]; dup {
-				return fmt.Errorf("%s: duplicate contract for %s", loc, name)
-			}
 			cur = &FuncSpec{Name: name, Loops: map[int]*LoopSpec{}, File: path, Line: r.line, Flags: map[string]string{}, ParamNames: pnames}
-			sf.Funcs[name] = cur
+			if _, dup := sf.Funcs[name]; dup {
+				// several contracts for one (library) function are allowed when each
+				// restricts itself with 'flag only_for=<prefix>' (checked by CheckAlternatives)
+				if sf.Alt == nil {
+					sf.Alt = map[string][]*FuncSpec{}
+				}
+				sf.Alt[name] = append(sf.Alt[name], cur)
+			} else {
+				sf.Funcs[name] = cur
+			}
 			curLoop = nil
 		case "pure", "abstract":
 			pf, err := parsePureDecl(r.kw, r.text)
@@ -987,4 +994,18 @@ func (p *sparser) parsePrimary() (SExpr, error) {
 		}
 	}
 	return nil, fmt.Errorf("unexpected token %q", t.s)
+}
+
+// CheckAlternatives: a function may have several contracts only if every one of
+// them is restricted to the verification of particular functions.
+func (sf *SpecFile) CheckAlternatives() error {
+	for name, alts := range sf.Alt {
+		all := append([]*FuncSpec{sf.Funcs[name]}, alts...)
+		for _, a := range all {
+			if a.Flags["only_for"] == "" {
+				return fmt.Errorf("%s:%d: duplicate contract for %s (several contracts for one function need 'flag only_for=...' on each)", a.File, a.Line, name)
+			}
+		}
+	}
+	return nil
 }
